@@ -109,12 +109,14 @@ _GBB_ASSUME = ['real-arithmetic reading: no rounding, no underflow of exp (IEEE:
                'a proposal can leave its sub-interval by a rounding error of log(exp(.)): outside the claim)',
                'exp, log: the axioms of _explog_opts, all true of the real functions',
                'the rejection loop carries no state from one iteration to the next (tables written before the loop only), so the value returned is the proposal of an '
-               'iteration with arbitrary draws that was accepted; VF_NREJ = 2 executes a rejected iteration before it as a cross-check',
+               'iteration with arbitrary draws that was accepted (argument by reading the loop body; the two-iteration cross-check VF_NREJ = 2 is beyond the solver)',
                'uniform draws in [0,1) (what law_uniform(0,1) documents)']
 for _mode, _mtxt, _mass in ((0, 'both bounds present, arbitrary reals binf < bsup (|.| <= 1e29)', 'binf < bsup'),
                             (1, 'lower bound only (bsup = TEST), arbitrary real binf (|.| <= 1e29)', 'bsup absent'),
                             (2, 'upper bound only (binf = TEST), arbitrary real bsup (|.| <= 1e29)', 'binf absent')):
-    for _nrej, _tiers in ((1, ('quick', 'thorough')), (2, ('thorough',))):
+    # VF_NREJ = 2 (a rejected iteration executed before the accepted one) was tried in the thorough tier: no verdict in 1700-2600 s
+    # (C13.c.ab.r2, C13.c.a.r2: one or two of the 64-case assertions stay unknown); not registered
+    for _nrej, _tiers in ((1, ('quick', 'thorough')),):
         K('C13.c.%s%s' % (('ab', 'a', 'b')[_mode], '' if _nrej == 1 else '.r2'), property='C13', engine='symex', harness='C13/bounds.cpp', entry='k_between',
           tus=['src/Basic/Law.cpp', 'src/Basic/Utilities.cpp'], defines={'all': {'VF_MODE': _mode, 'VF_NREJ': _nrej}}, tiers=_tiers,
           symex_opts=_explog_opts, symex={'libm_exact': {'exp': _exp_native, 'log': _log_native}},
@@ -153,8 +155,8 @@ for _kind, _cls, _tus, _extra_stub, _extra_what in (
     for _nvar, _nact, _tiers in ((2, 2, ('quick', 'thorough')), (2, 3, ('thorough',))):
         K('C13.e.%s.%d%d' % ('u' if _kind == 0 else 'm', _nvar, _nact), property='C13', engine='symex', harness='C13/gibbs.cpp', entries=['k_gibbs_gs1', 'k_gibbs_gs0'],
           tus=_tus + ['src/Gibbs/GibbsMulti.cpp', 'src/Gibbs/AGibbs.cpp', 'src/Basic/Utilities.cpp'],
-          defines={'all': {'VF_KIND': _kind, 'VF_NVAR': _nvar, 'VF_NACT': _nact}}, tiers=_tiers,
-          bounds={'quick': '%s, one sweep: 2 GS x %d variables (GS rank 1, then 0), %d active samples mapped by arbitrary ranks into a Db of %d samples; arbitrary bounds tables (each bound present or absent, lower <= upper), arbitrary prior gaussian values, arbitrary inverse covariance matrix with positive diagonal / arbitrary positive variances' % (_cls, _nvar, _nact, _nact + 1)},
+          defines={'all': {'VF_KIND': _kind, 'VF_NVAR': _nvar, 'VF_NACT': _nact, 'VF_NS': 3 if _nact == 2 else 5}}, tiers=_tiers,   # 5, not 4: with two equal power-of-two limits clang fuses the range checks of the Db stub into (iech | item) < 4
+          bounds={'quick': '%s, one sweep: 2 GS x %d variables (GS rank 1, then 0), %d active samples mapped by arbitrary ranks into a Db of %d samples; arbitrary bounds tables (each bound present or absent, lower <= upper), arbitrary prior gaussian values, arbitrary inverse covariance matrix with positive diagonal / arbitrary positive variances' % (_cls, _nvar, _nact, 3 if _nact == 2 else 5)},
           timeout_ms={'quick': 100000, 'thorough': 600000}, validate={'quick': 30, 'thorough': 60},
           what=_extra_what + ', AGibbs::getRank, getSampleRank, _getSampleRankNumber, _isConstraintTight, FFFF, isEqual: tight constraint -> the bound, no simulation; otherwise exactly one getSimulate with icase = ivar + nvar*ipgs, the ranks of the (GS, variable, sample) being updated, the conditional mean / st.dev. of its own equation, result stored at y[icase][iact]; other GS untouched',
           out='getSimulate (C13.e.sim.*) and the bounded draw (C13.c); computation of the inverse covariance matrix / sparse weights; statistics (_updateStats, off); rounding of the sums of products',
